@@ -109,6 +109,18 @@ CLAIMS = {
         "the MSSM functions are covered for this property only through the loop-function contracts of C01/C02 (equal-argument branches).  T7/T8 (complex square roots) only through their call-site preconditions. "
         "Four fixed findings (Kaellen zeros, m_h = 2 m_W, guard onto the pole at m_h = m_Z, guard order in YF3).",
    technique="symbolic execution of the extracted kernels; side obligations (denominator != 0, log/sqrt domains) discharged by z3 NRA on all paths; modular call-site preconditions; counterexample replay on the real code", design='5 C11'),
+ 'C12': dict(
+   text="The wrapper layers of src/gm2_linalg.hpp (fs_diagonalize_hermitian, fs_svd, fs_diagonalize_symmetric and the internal reorder_*/ *_errbd functions) are executed symbolically "
+        "with Eigen's two solvers replaced by their documented contracts (svd_eigen: m = U diag(S) Vh, unitary factors, S descending >= 0; hermitian_eigen: m = Z diag(W) Z^dagger, Z unitary, "
+        "W ascending).  For the instantiations the models use (hermitian 2x2; SVD complex 3x3 and real 2x2; Takagi real symmetric 2x2 and 4x4) and on EVERY path -- all orderings of the "
+        "eigen/singular values including ties, every sign pattern of the eigenvalues (negative eigenvalues get the phase i) -- the returned factors reproduce the input matrix in the documented "
+        "convention (ring identity in the solver's output), singular values are non-negative, the documented ascending order holds, the values are a rearrangement of the solver's, and the "
+        "Gram matrix of every returned factor is a re-indexing (up to unimodular phases off the diagonal) of the solver factor's Gram matrix, i.e. unitarity is preserved.",
+   note=NOTE_COMMON + "ASSUMED, not proved: the contracts of Eigen's JacobiSVD and SelfAdjointEigenSolver (iterative/closed-form solvers inside Eigen's expression templates are outside CBMC and the "
+        "extractor) -- this is what remains of A-LINALG.  Not covered: the error-bound outputs (disna), floating-point accuracy of the factors, sizes/instantiations the models do not use. "
+        "Fidelity guard: Eigen's real solver output for 18 concrete matrices (random, identity, diagonal with negative and zero entries, hierarchical) is fed through the stubs and the "
+        "interpreter's wrapper results agree bit for bit with the real fs_* functions.",
+   technique="symbolic execution of the wrapper code under assumed solver contracts; ring normalisation for the factorisation identities; structural Gram-matrix argument for unitarity; z3 for orderings", design='5 C12'),
  'C13': dict(
    text="Contracts on the SLHA reader: every process_*_tuple(object, key, value) has exactly the documented effect (README tables: the documented member gets the documented function of "
         "value, every other member unchanged; nothing changes for undocumented keys, swept over -2..59 and the PDG codes); convert_to<T>(token) returns only if the WHOLE token was "
@@ -181,7 +193,6 @@ CLAIMS = {
 }
 
 NOT_APPLICABLE = {
- 'C12': "matrix decompositions are thin templates over Eigen's iterative JacobiSVD/SelfAdjointEigenSolver and expression templates: no contract within reach of CBMC or of the extractor can express or decide them; their documented contracts are used only as assumption A-LINALG (DESIGN.md section 6)",
 }
 
 def main():
